@@ -612,8 +612,24 @@ theorem emits_seqAll7 {f1 f2 f3 f4 f5 f6 f7 : Enc → ERes Unit} {L1 L2 L3 L4 L5
 /-- the RDATA variants covered by the round-trip proof so far -/
 def _root_.HickoryVerif.Wire.RData.proved : RData → Bool
   | .a _ | .aaaa _ | .name _ | .mx _ _ | .soa _ _ _ _ _ _ _ | .txt _ | .srv _ _ _ _ | .hinfo _ _ | .null _
-  | .unknown _ _ => true
+  | .unknown _ _
+  | .ds _ _ _ _ | .dnskey _ _ _ _ | .tlsa _ _ _ _ | .sshfp _ _ _ | .openpgpkey _ | .cert _ _ _ _
+  | .nsec3param _ _ _ | .caa _ _ _ _ | .key _ _ _ _ | .naptr _ _ _ _ _ _ | .sig _ _ _ _ _ _ _ _ _
+  | .tsig _ _ _ _ _ _ _ => true
   | _ => false
+
+/-- wire form of the name-free "blob" variants (stage 3): fixed fields, then the rest as it is -/
+def blobWire : RData → Bytes
+  | .ds tag alg dt dg => u16b tag ++ ([alg, dt] ++ dg)
+  | .dnskey _ flags alg key => u16b flags ++ ([3, alg] ++ key)
+  | .tlsa u sel m d => [u, sel, m] ++ d
+  | .sshfp a f d => [a, f] ++ d
+  | .openpgpkey d => d
+  | .cert ct tag alg d => u16b ct ++ (u16b tag ++ ([alg] ++ d))
+  | .nsec3param oo iter salt => [1, (if oo then 1 else 0)] ++ (u16b iter ++ ([salt.length] ++ salt))
+  | .caa cr rs tag v => [rs + (if cr then 128 else 0), tag.length] ++ (tag ++ v)
+  | .key flags proto alg k => u16b flags ++ ([proto, alg] ++ k)
+  | _ => []
 
 /-- the layout `RData::emit` leaves for the covered variants -/
 def layRData : RData → Lay
@@ -632,6 +648,29 @@ def layRData : RData → Lay
   | .hinfo c o => laySeg ((c.length :: c) ++ (o.length :: o))
   | .null d => laySeg d
   | .unknown _ d => laySeg d
+  | .ds tag alg dt dg => laySeg (blobWire (.ds tag alg dt dg))
+  | .dnskey cd flags alg key => laySeg (blobWire (.dnskey cd flags alg key))
+  | .tlsa u sel m d => laySeg (blobWire (.tlsa u sel m d))
+  | .sshfp a f d => laySeg (blobWire (.sshfp a f d))
+  | .openpgpkey d => laySeg (blobWire (.openpgpkey d))
+  | .cert ct tag alg d => laySeg (blobWire (.cert ct tag alg d))
+  | .nsec3param oo iter salt => laySeg (blobWire (.nsec3param oo iter salt))
+  | .caa cr rs tag v => laySeg (blobWire (.caa cr rs tag v))
+  | .key flags proto alg k => laySeg (blobWire (.key flags proto alg k))
+  | .naptr order pref flags services regexp n =>
+    laySeq (laySeg (u16b order)) (laySeq (laySeg (u16b pref)) (laySeq (laySeg (flags.length :: flags))
+      (laySeq (laySeg (services.length :: services)) (laySeq (laySeg (regexp.length :: regexp))
+        (laySeq (layName n.labels) layEmpty)))))
+  | .sig covered alg labels ottl exp inc tag signer sg =>
+    laySeq (laySeq (laySeg (u16b covered)) (laySeq (laySeg [alg]) (laySeq (laySeg [labels])
+      (laySeq (laySeg (u32b ottl)) (laySeq (laySeg (u32b exp)) (laySeq (laySeg (u32b inc))
+        (laySeq (laySeg (u16b tag)) (laySeq (layName signer.labels) layEmpty))))))))
+      (laySeq (laySeg sg) layEmpty)
+  | .tsig alg time fudge mac oid err other =>
+    laySeq (layName alg.labels) (laySeq (laySeg (u16b (time / 4294967296)))
+      (laySeq (laySeg (u32b (time % 4294967296))) (laySeq (laySeg (u16b fudge)) (laySeq (laySeg (u16b mac.length))
+        (laySeq (laySeg mac) (laySeq (laySeg (u16b oid)) (laySeq (laySeg (u16b err))
+          (laySeq (laySeg (u16b other.length)) (laySeq (laySeg other) layEmpty)))))))))
   | _ => fun _ _ _ _ => False
 
 /-- the names inside the covered RDATA variants are well-formed names -/
@@ -641,6 +680,19 @@ def _root_.HickoryVerif.Wire.RData.namesWF : RData → Prop
   | .srv _ _ _ n => n.WF
   | .soa m r _ _ _ _ _ => m.WF ∧ r.WF
   | .aaaa b => b.length = 16 ∧ ∀ x ∈ b, x < 256
+  -- the blob family: the one-octet fields are octets (`as u8` / `u8::from` on the Rust side)
+  | .ds _ alg dt _ => alg < 256 ∧ dt < 256
+  | .dnskey _ _ alg _ => alg < 256
+  | .tlsa u sel m _ => u < 256 ∧ sel < 256 ∧ m < 256
+  | .sshfp a f _ => a < 256 ∧ f < 256
+  | .cert _ _ alg _ => alg < 256
+  | .nsec3param _ _ salt => salt.length < 256
+  | .caa _ rs tag _ => rs < 128 ∧ tag.length < 256
+  | .key _ proto alg _ => proto < 256 ∧ alg < 256
+  | .naptr _ _ _ _ _ n => n.WF
+  | .sig _ alg labels _ _ _ _ signer _ => signer.WF ∧ alg < 256 ∧ labels < 256
+  -- TSIG: the `u16::try_from` / 48-bit conversions of `TSIG::emit` succeed
+  | .tsig alg time _ mac _ _ other => alg.WF ∧ time < 281474976710656 ∧ mac.length < 65536 ∧ other.length < 65536
   | _ => True
 
 theorem isLayout_rdata (d : RData) (hp : d.proved = true) : IsLayout (layRData d) := by
@@ -661,6 +713,20 @@ theorem isLayout_rdata (d : RData) (hp : d.proved = true) : IsLayout (layRData d
   case hinfo => exact isLayout_seg _
   case null => exact isLayout_seg _
   case unknown => exact isLayout_seg _
+  case naptr =>
+    exact isLayout_seq (isLayout_seg _) (isLayout_seq (isLayout_seg _) (isLayout_seq (isLayout_seg _)
+      (isLayout_seq (isLayout_seg _) (isLayout_seq (isLayout_seg _) (isLayout_seq (isLayout_name _) isLayout_empty)))))
+  case sig =>
+    exact isLayout_seq (isLayout_seq (isLayout_seg _) (isLayout_seq (isLayout_seg _) (isLayout_seq (isLayout_seg _)
+      (isLayout_seq (isLayout_seg _) (isLayout_seq (isLayout_seg _) (isLayout_seq (isLayout_seg _)
+        (isLayout_seq (isLayout_seg _) (isLayout_seq (isLayout_name _) isLayout_empty))))))))
+      (isLayout_seq (isLayout_seg _) isLayout_empty)
+  case tsig =>
+    exact isLayout_seq (isLayout_name _) (isLayout_seq (isLayout_seg _) (isLayout_seq (isLayout_seg _)
+      (isLayout_seq (isLayout_seg _) (isLayout_seq (isLayout_seg _) (isLayout_seq (isLayout_seg _)
+        (isLayout_seq (isLayout_seg _) (isLayout_seq (isLayout_seg _) (isLayout_seq (isLayout_seg _)
+          (isLayout_seq (isLayout_seg _) isLayout_empty)))))))))
+  all_goals exact isLayout_seg _
 
 theorem emits_emitRData (t : Nat) (d : RData) (hp : d.proved = true) (hwf : d.namesWF) :
     Emits (emitRData t d) (layRData d) := by
@@ -686,6 +752,95 @@ theorem emits_emitRData (t : Nat) (d : RData) (hp : d.proved = true) (hwf : d.na
     simpa [seqAll] using this
   case null d => exact emits_emitSlice d
   case unknown c d => exact emits_emitSlice d
+  case openpgpkey d => exact emits_emitSlice d
+  case ds tag alg dt dg =>
+    have h1 := emits_emitU8 alg; have h2 := emits_emitU8 dt
+    rw [Nat.mod_eq_of_lt hwf.1] at h1; rw [Nat.mod_eq_of_lt hwf.2] at h2
+    have := emits_seg_seq (emits_emitU16 tag) (emits_seg_seq h1 (emits_seg_seq h2
+      (emits_seg_seq (emits_emitSlice dg) emits_nothing_seg)))
+    simpa [seqAll, blobWire, u16b] using this
+  case dnskey cd flags alg key =>
+    have h1 := emits_emitU8 alg; have h3 := emits_emitU8 3
+    rw [Nat.mod_eq_of_lt hwf] at h1
+    have := emits_seg_seq (emits_emitU16 flags) (emits_seg_seq h3 (emits_seg_seq h1
+      (emits_seg_seq (emits_emitSlice key) emits_nothing_seg)))
+    simpa [seqAll, blobWire, u16b] using this
+  case tlsa u sel m d =>
+    have h1 := emits_emitU8 u; have h2 := emits_emitU8 sel; have h3 := emits_emitU8 m
+    rw [Nat.mod_eq_of_lt hwf.1] at h1; rw [Nat.mod_eq_of_lt hwf.2.1] at h2; rw [Nat.mod_eq_of_lt hwf.2.2] at h3
+    have := emits_seg_seq h1 (emits_seg_seq h2 (emits_seg_seq h3
+      (emits_seg_seq (emits_emitSlice d) emits_nothing_seg)))
+    simpa [seqAll, blobWire] using this
+  case sshfp a f d =>
+    have h1 := emits_emitU8 a; have h2 := emits_emitU8 f
+    rw [Nat.mod_eq_of_lt hwf.1] at h1; rw [Nat.mod_eq_of_lt hwf.2] at h2
+    have := emits_seg_seq h1 (emits_seg_seq h2 (emits_seg_seq (emits_emitSlice d) emits_nothing_seg))
+    simpa [seqAll, blobWire] using this
+  case cert ct tag alg d =>
+    have h1 := emits_emitU8 alg
+    rw [Nat.mod_eq_of_lt hwf] at h1
+    have := emits_seg_seq (emits_emitU16 ct) (emits_seg_seq (emits_emitU16 tag) (emits_seg_seq h1
+      (emits_seg_seq (emits_emitSlice d) emits_nothing_seg)))
+    refine emits_withRdataBehavior ?_ _
+    simpa [seqAll, blobWire, u16b] using this
+  case nsec3param oo iter salt =>
+    have h1 := emits_emitU8 1
+    have h2 := emits_emitU8 (if oo then 1 else 0)
+    have h3 := emits_emitU8 (salt.length % 256)
+    have e2 : (if oo then 1 else 0) % 256 = (if oo then 1 else 0) := by cases oo <;> rfl
+    rw [e2] at h2
+    rw [Nat.mod_mod, Nat.mod_eq_of_lt hwf] at h3
+    have := emits_seg_seq h1 (emits_seg_seq h2 (emits_seg_seq (emits_emitU16 iter) (emits_seg_seq h3
+      (emits_seg_seq (emits_emitSlice salt) emits_nothing_seg))))
+    have hmod : salt.length % 256 = salt.length := Nat.mod_eq_of_lt hwf
+    simpa [seqAll, blobWire, u16b, hmod] using this
+  case key flags proto alg k =>
+    have h1 := emits_emitU8 proto; have h2 := emits_emitU8 alg
+    rw [Nat.mod_eq_of_lt hwf.1] at h1; rw [Nat.mod_eq_of_lt hwf.2] at h2
+    have := emits_seg_seq (emits_emitU16 flags) (emits_seg_seq h1 (emits_seg_seq h2
+      (emits_seg_seq (emits_emitSlice k) emits_nothing_seg)))
+    simpa [seqAll, blobWire, u16b] using this
+  case naptr order pref flags services regexp n =>
+    refine emits_withRdataBehavior ?_ _
+    exact emits_seq (isLayout_seg _) (emits_emitU16 order) (emits_seqAll5 (isLayout_seg _) (isLayout_seg _)
+      (isLayout_seg _) (isLayout_seg _) (isLayout_name _) (emits_emitU16 pref) (emits_emitCharacterData flags)
+      (emits_emitCharacterData services) (emits_emitCharacterData regexp) (emits_emitName n hwf))
+  case sig covered alg labels ottl exp inc tag signer sg =>
+    have h1 := emits_emitU8 alg; have h2 := emits_emitU8 labels
+    rw [Nat.mod_eq_of_lt hwf.2.1] at h1; rw [Nat.mod_eq_of_lt hwf.2.2] at h2
+    have hin := emits_seq (isLayout_seg _) (emits_emitU16 covered) (emits_seqAll7 (isLayout_seg _) (isLayout_seg _)
+      (isLayout_seg _) (isLayout_seg _) (isLayout_seg _) (isLayout_seg _) (isLayout_name _) h1 h2
+      (emits_emitU32 ottl) (emits_emitU32 exp) (emits_emitU32 inc) (emits_emitU16 tag) (emits_emitName signer hwf.1))
+    refine emits_withRdataBehavior ?_ _
+    exact emits_seqAll2 (isLayout_seq (isLayout_seg _) (isLayout_seq (isLayout_seg _) (isLayout_seq (isLayout_seg _)
+      (isLayout_seq (isLayout_seg _) (isLayout_seq (isLayout_seg _) (isLayout_seq (isLayout_seg _)
+        (isLayout_seq (isLayout_seg _) (isLayout_seq (isLayout_name _) isLayout_empty))))))))
+      (isLayout_seg _) (emits_withRdataBehavior hin _) (emits_emitSlice sg)
+  case tsig alg time fudge mac oid err other =>
+    obtain ⟨halg, htime, hmac, hother⟩ := hwf
+    have c1 : ¬ time / 4294967296 > 65535 := by omega
+    have c2 : ¬ mac.length > 65535 := by omega
+    have c3 : ¬ other.length > 65535 := by omega
+    simp only [c1, c2, c3, ↓reduceIte]
+    refine emits_withRdataBehavior ?_ _
+    exact emits_seq (isLayout_name _) (emits_emitName alg halg) (emits_seq (isLayout_seg _) (emits_emitU16 _)
+      (emits_seq (isLayout_seg _) (emits_emitU32 _) (emits_seqAll7 (isLayout_seg _) (isLayout_seg _)
+        (isLayout_seg _) (isLayout_seg _) (isLayout_seg _) (isLayout_seg _) (isLayout_seg _)
+        (emits_emitU16 fudge) (emits_emitU16 mac.length) (emits_emitSlice mac) (emits_emitU16 oid)
+        (emits_emitU16 err) (emits_emitU16 other.length) (emits_emitSlice other))))
+  case caa cr rs tag v =>
+    have h1 := emits_emitU8 (rs % 128 + (if cr then 128 else 0))
+    have e1 : (rs % 128 + (if cr then 128 else 0)) % 256 = rs + (if cr then 128 else 0) := by
+      have := hwf.1; cases cr <;> simp <;> omega
+    rw [e1] at h1
+    have h2 := emits_emitU8 tag.length
+    rw [Nat.mod_eq_of_lt hwf.2] at h2
+    have hnot : ¬ tag.length > 255 := by have := hwf.2; omega
+    refine emits_withRdataBehavior ?_ _
+    simp only [hnot, ↓reduceIte]
+    have := emits_seg_seq h1 (emits_seg_seq h2 (emits_seg_seq (emits_emitSlice tag)
+      (emits_seg_seq (emits_emitSlice v) emits_nothing_seg)))
+    simpa [seqAll, blobWire] using this
 
 /-- the layout of a record -/
 def layRecord (r : Record) : Lay :=
@@ -832,6 +987,24 @@ def _root_.HickoryVerif.Wire.RData.typeOK (t : Nat) : RData → Prop
   | .hinfo c o => t = 13 ∧ c.length ≤ 255 ∧ o.length ≤ 255
   | .null _ => t = 10
   | .unknown c _ => c = t ∧ UnknownType t
+  -- the blob family; what the decoders insist on is part of the contract: a CERT without certificate
+  -- data and a CAA whose tag is not 1..15 alphanumerics are refused by `read_data`
+  | .ds tag _ _ _ => (t = 43 ∨ t = 59) ∧ tag < 65536
+  | .dnskey cd flags _ _ => ((t = 48 ∧ cd = false) ∨ (t = 60 ∧ cd = true)) ∧ flags < 65536
+  | .tlsa _ _ _ _ => t = 52 ∨ t = 53
+  | .sshfp _ _ _ => t = 44
+  | .openpgpkey _ => t = 61
+  | .cert ct tag _ d => t = 37 ∧ ct < 65536 ∧ tag < 65536 ∧ d ≠ []
+  | .nsec3param _ iter _ => t = 51 ∧ iter < 65536
+  | .caa _ _ tag _ => t = 257 ∧ 1 ≤ tag.length ∧ tag.length ≤ 15 ∧ tag.all isAlnum = true
+  -- KEY: the flags word `KEY::read_data` accepts (reserved bits clear, no extended flags)
+  | .key flags _ _ _ => t = 25 ∧ flags < 65536 ∧ (flags / 8192) % 2 = 0 ∧ (flags / 1024) % 4 = 0 ∧
+      (flags / 16) % 16 = 0 ∧ (flags / 4096) % 2 = 0
+  | .naptr order pref flags services regexp _ => t = 35 ∧ order < 65536 ∧ pref < 65536 ∧
+      flags.length ≤ 255 ∧ services.length ≤ 255 ∧ regexp.length ≤ 255 ∧ flags.all isAlnum = true
+  | .sig covered _ _ ottl exp inc tag _ _ => (t = 46 ∨ t = 24) ∧ covered < 65536 ∧ ottl < 4294967296 ∧
+      exp < 4294967296 ∧ inc < 4294967296 ∧ tag < 65536
+  | .tsig _ _ fudge _ oid err _ => t = 250 ∧ fudge < 65536 ∧ oid < 65536 ∧ err < 65536
   | _ => False
 
 /-- the value with every embedded name made fully qualified (what `Name::read` returns) -/
@@ -840,6 +1013,10 @@ def _root_.HickoryVerif.Wire.RData.fq : RData → RData
   | .mx p n => .mx p { n with fqdn := true }
   | .srv p w port n => .srv p w port { n with fqdn := true }
   | .soa m r a b c d e => .soa { m with fqdn := true } { r with fqdn := true } a b c d e
+  | .naptr o p f s r n => .naptr o p f s r { n with fqdn := true }
+  | .sig c a l o e i t signer sg => .sig c a l o e i t { signer with fqdn := true } sg
+  -- `TsigAlgorithm::to_name()` gives the algorithm name back relative
+  | .tsig alg t f m o e x => .tsig { alg with fqdn := false } t f m o e x
   | d => d
 
 theorem drop_of_segAt_end {buf d : Bytes} {p : Nat} (h : SegAt buf p d) (he : p + d.length = buf.length) :
@@ -914,6 +1091,36 @@ theorem reads_aaaa {opq : Nat → Rd Bytes} {buf b : Bytes} {p : Nat} (hlen : b.
   rw [a0.1, a0.2, a1.1, a1.2, a2.1, a2.2, a3.1, a3.2, a4.1, a4.2, a5.1, a5.2, a6.1, a6.2, a7.1, a7.2]
 
 /-- **the RDATA decoders invert the RDATA emitters** (covered variants) -/
+theorem segAt_cons_get {buf : Bytes} {p x : Nat} {rest : Bytes} (h : SegAt buf p (x :: rest)) :
+    buf[p]? = some x := by
+  have := segAt_of_getElem (i := 0) h rfl; simpa using this
+
+theorem segAt_cons_tail {buf : Bytes} {p x : Nat} {rest : Bytes} (h : SegAt buf p (x :: rest)) :
+    SegAt buf (p + 1) rest := by
+  have := SegAt.append_right (a := [x]) (b := rest) (by simpa using h); simpa using this
+
+theorem reads_u16_seg {buf rest : Bytes} {p v : Nat} (h : SegAt buf p (u16b v ++ rest)) (hv : v < 65536) :
+    Reads Rd.readU16 buf p v (p + 2) :=
+  reads_u16_of_seg (H := fun _ => True) ⟨h.append_left, rfl⟩ hv
+
+theorem segAt_u16_tail {buf rest : Bytes} {p v : Nat} (h : SegAt buf p (u16b v ++ rest)) :
+    SegAt buf (p + 2) rest := by simpa [u16b] using h.append_right
+
+theorem reads_toEnd_seg {buf rest : Bytes} {p : Nat} (h : SegAt buf p rest) (he : p + rest.length = buf.length) :
+    Reads Rd.readVecToEnd buf p rest buf.length := by
+  have := Reads.readVecToEnd buf p; rwa [drop_of_segAt_end h he] at this
+
+theorem reads_readTag {buf : Bytes} : ∀ (tag acc : Bytes) (p : Nat), SegAt buf p tag → tag.all isAlnum = true →
+    Reads (readTag tag.length acc) buf p (acc ++ tag) (p + tag.length)
+  | [], acc, p, _, _ => by simpa [readTag] using Reads.pure acc buf p
+  | c :: tag, acc, p, h, hall => by
+    simp only [List.all_cons, Bool.and_eq_true] at hall
+    simp only [List.length_cons, readTag]
+    refine Reads.bind (Reads.pop (segAt_cons_get h)) ?_
+    rw [if_pos hall.1]
+    have := reads_readTag tag (acc ++ [c]) (p + 1) (segAt_cons_tail h) hall.2
+    simpa [List.append_assoc, Nat.add_assoc, Nat.add_comm 1] using this
+
 theorem reads_rdataBody {H : Nat × Nat → Prop} {opq : Nat → Rd Bytes} {t : Nat} {buf : Bytes} {p : Nat}
     (d : RData) (hp : d.proved = true) (hty : d.typeOK t) (hwf : d.namesWF)
     (hl : layRData d H buf p buf.length) : Reads (readRDataBody opq t) buf p d.fq buf.length := by
@@ -1018,12 +1225,297 @@ theorem reads_rdataBody {H : Nat × Nat → Prop} {opq : Nat → Rd Bytes} {t : 
     refine Reads.bind (Reads.readVecToEnd buf p) ?_
     rw [drop_of_segAt_end hseg hq.symm]
     exact Reads.pure _ _ _
+  case ds tag alg dt dg =>
+    obtain ⟨ht, htag⟩ := hty
+    obtain ⟨hseg, hq⟩ := hl
+    simp only [blobWire, List.length_append, List.length_cons, List.length_nil, u16b] at hq
+    have s1 := segAt_u16_tail hseg
+    have s2 := segAt_cons_tail s1
+    have s3 : SegAt buf (p + 2 + 1 + 1) dg := segAt_cons_tail s2
+    have hbody : readRDataBody opq t = (do
+        let tag ← Rd.readU16; let alg ← Rd.pop; let dt ← Rd.pop
+        let d ← Rd.readVecToEnd
+        pure (.ds tag alg dt d)) := by
+      rcases ht with rfl | rfl <;> rfl
+    rw [hbody]
+    refine Reads.bind (reads_u16_seg hseg htag) ?_
+    refine Reads.bind (Reads.pop (segAt_cons_get s1)) ?_
+    refine Reads.bind (Reads.pop (segAt_cons_get s2)) ?_
+    refine Reads.bind (reads_toEnd_seg s3 (by omega)) ?_
+    exact Reads.pure _ _ _
+  case dnskey cd flags alg key =>
+    obtain ⟨ht, hfl⟩ := hty
+    obtain ⟨hseg, hq⟩ := hl
+    simp only [blobWire, List.length_append, List.length_cons, List.length_nil, u16b] at hq
+    have s1 := segAt_u16_tail hseg
+    have s2 := segAt_cons_tail s1
+    have s3 : SegAt buf (p + 2 + 1 + 1) key := segAt_cons_tail s2
+    have hbody : readRDataBody opq t = (do
+        let flags ← Rd.readU16
+        let proto ← Rd.pop
+        if proto ≠ 3 then Rd.fail
+        else
+          let alg ← Rd.pop
+          let k ← Rd.readVecToEnd
+          pure (.dnskey cd flags alg k)) := by
+      rcases ht with ⟨rfl, rfl⟩ | ⟨rfl, rfl⟩ <;> rfl
+    rw [hbody]
+    refine Reads.bind (reads_u16_seg hseg hfl) ?_
+    refine Reads.bind (Reads.pop (segAt_cons_get s1)) ?_
+    rw [if_neg (by simp)]
+    refine Reads.bind (Reads.pop (segAt_cons_get s2)) ?_
+    refine Reads.bind (reads_toEnd_seg s3 (by omega)) ?_
+    exact Reads.pure _ _ _
+  case tlsa u sel m d =>
+    obtain ⟨hseg, hq⟩ := hl
+    simp only [blobWire, List.length_append, List.length_cons, List.length_nil] at hq
+    have s1 := segAt_cons_tail hseg
+    have s2 := segAt_cons_tail s1
+    have s3 : SegAt buf (p + 1 + 1 + 1) d := segAt_cons_tail s2
+    have hbody : readRDataBody opq t = (do
+        let u ← Rd.pop; let sel ← Rd.pop; let m ← Rd.pop
+        let d ← Rd.readVecToEnd
+        pure (.tlsa u sel m d)) := by
+      rcases hty with rfl | rfl <;> rfl
+    rw [hbody]
+    refine Reads.bind (Reads.pop (segAt_cons_get hseg)) ?_
+    refine Reads.bind (Reads.pop (segAt_cons_get s1)) ?_
+    refine Reads.bind (Reads.pop (segAt_cons_get s2)) ?_
+    refine Reads.bind (reads_toEnd_seg s3 (by omega)) ?_
+    exact Reads.pure _ _ _
+  case sshfp a f d =>
+    obtain rfl := hty
+    obtain ⟨hseg, hq⟩ := hl
+    simp only [blobWire, List.length_append, List.length_cons, List.length_nil] at hq
+    have s1 := segAt_cons_tail hseg
+    have s2 : SegAt buf (p + 1 + 1) d := segAt_cons_tail s1
+    have hbody : readRDataBody opq 44 = (do
+        let a ← Rd.pop; let f ← Rd.pop
+        let d ← Rd.readVecToEnd
+        pure (.sshfp a f d)) := rfl
+    rw [hbody]
+    refine Reads.bind (Reads.pop (segAt_cons_get hseg)) ?_
+    refine Reads.bind (Reads.pop (segAt_cons_get s1)) ?_
+    refine Reads.bind (reads_toEnd_seg s2 (by omega)) ?_
+    exact Reads.pure _ _ _
+  case openpgpkey d =>
+    obtain rfl := hty
+    obtain ⟨hseg, hq⟩ := hl
+    simp only [blobWire] at hq hseg
+    have hbody : readRDataBody opq 61 = (do
+        let d ← Rd.readVecToEnd
+        pure (.openpgpkey d)) := rfl
+    rw [hbody]
+    refine Reads.bind (reads_toEnd_seg hseg (by omega)) ?_
+    exact Reads.pure _ _ _
+  case cert ct tag alg d =>
+    obtain ⟨rfl, hct, htag, hne⟩ := hty
+    obtain ⟨hseg, hq⟩ := hl
+    simp only [blobWire, List.length_append, List.length_cons, List.length_nil, u16b] at hq
+    have hdl : 0 < d.length := List.length_pos_iff.2 hne
+    have s1 := segAt_u16_tail hseg
+    have s2 := segAt_u16_tail s1
+    have s3 : SegAt buf (p + 2 + 2 + 1) d := segAt_cons_tail s2
+    have hbody : readRDataBody opq 37 = (do
+        let left ← Rd.remaining
+        if left ≤ 5 then Rd.fail
+        else
+          let ct ← Rd.readU16; let tag ← Rd.readU16; let alg ← Rd.pop
+          let d ← Rd.readVecToEnd
+          pure (.cert ct tag alg d)) := rfl
+    rw [hbody]
+    refine Reads.bind (Reads.remaining buf p) ?_
+    rw [if_neg (by omega)]
+    refine Reads.bind (reads_u16_seg hseg hct) ?_
+    refine Reads.bind (reads_u16_seg s1 htag) ?_
+    refine Reads.bind (Reads.pop (segAt_cons_get s2)) ?_
+    refine Reads.bind (reads_toEnd_seg s3 (by omega)) ?_
+    exact Reads.pure _ _ _
+  case nsec3param oo iter salt =>
+    obtain ⟨rfl, hit⟩ := hty
+    obtain ⟨hseg, hq⟩ := hl
+    simp only [blobWire, List.length_append, List.length_cons, List.length_nil, u16b] at hq
+    have s1 := segAt_cons_tail hseg
+    have s2 := segAt_cons_tail s1
+    have s3 := segAt_u16_tail s2
+    have s4 : SegAt buf (p + 1 + 1 + 2 + 1) salt := segAt_cons_tail s3
+    have hbody : readRDataBody opq 51 = (do
+        let (optOut, iter, salt) ← readNsec3Head
+        pure (.nsec3param optOut iter salt)) := rfl
+    rw [hbody]
+    have hhead : Reads readNsec3Head buf p (oo, iter, salt) buf.length := by
+      unfold readNsec3Head
+      refine Reads.bind (Reads.pop (segAt_cons_get hseg)) ?_
+      rw [if_neg (by simp)]
+      refine Reads.bind (Reads.pop (segAt_cons_get s1)) ?_
+      rw [if_neg (by cases oo <;> simp)]
+      refine Reads.bind (reads_u16_seg s2 hit) ?_
+      refine Reads.bind (Reads.pop (segAt_cons_get s3)) ?_
+      refine Reads.bind (Reads.remaining buf _) ?_
+      rw [if_neg (by omega)]
+      refine Reads.bind (Reads.readSlice s4) ?_
+      have he : p + 1 + 1 + 2 + 1 + salt.length = buf.length := by omega
+      rw [he]
+      refine Reads.pure' _ _ ?_
+      cases oo <;> simp
+    refine Reads.bind hhead ?_
+    exact Reads.pure _ _ _
+  case key flags proto alg k =>
+    obtain ⟨rfl, hfl, hk1, hk2, hk3, hk4⟩ := hty
+    obtain ⟨hseg, hq⟩ := hl
+    simp only [blobWire, List.length_append, List.length_cons, List.length_nil, u16b] at hq
+    have s1 := segAt_u16_tail hseg
+    have s2 := segAt_cons_tail s1
+    have s3 : SegAt buf (p + 2 + 1 + 1) k := segAt_cons_tail s2
+    have hbody : readRDataBody opq 25 = readDnssec 25 := rfl
+    rw [hbody]
+    simp only [readDnssec, Nat.reduceEqDiff, ↓reduceIte, or_self]
+    refine Reads.bind (reads_u16_seg hseg hfl) ?_
+    rw [if_neg (by omega), if_neg (by omega), if_neg (by omega), if_neg (by omega)]
+    refine Reads.bind (Reads.pop (segAt_cons_get s1)) ?_
+    refine Reads.bind (Reads.pop (segAt_cons_get s2)) ?_
+    refine Reads.bind (reads_toEnd_seg s3 (by omega)) ?_
+    exact Reads.pure _ _ _
+  case naptr order pref flags services regexp n =>
+    obtain ⟨rfl, ho, hpf, hf, hs, hr, hal⟩ := hty
+    obtain ⟨m1, l1, m2, l2, m3, l3, m4, l4, m5, l5, m6, l6, l7⟩ := hl
+    obtain ⟨rfl, _⟩ := l7
+    obtain ⟨g3, rfl⟩ := l3
+    obtain ⟨g4, rfl⟩ := l4
+    obtain ⟨g5, rfl⟩ := l5
+    have hbody : readRDataBody opq 35 = (do
+        let order ← Rd.readU16
+        let pref ← Rd.readU16
+        let flags ← Rd.readCharacterData
+        if !flags.all isAlnum then Rd.fail
+        else
+          let services ← Rd.readCharacterData
+          let regexp ← Rd.readCharacterData
+          let n ← Rd.name
+          pure (.naptr order pref flags services regexp n)) := rfl
+    rw [hbody]
+    refine Reads.bind (reads_u16_of_seg l1 ho) ?_
+    refine Reads.bind (reads_u16_of_seg l2 hpf) ?_
+    refine Reads.bind (reads_charData g3) ?_
+    rw [if_neg (by simp [hal])]
+    have e3 : m2 + (flags.length :: flags).length = m2 + 1 + flags.length := by simp; omega
+    rw [e3] at g4 l6 g5
+    refine Reads.bind (reads_charData g4) ?_
+    have e4 : m2 + 1 + flags.length + (services.length :: services).length =
+        m2 + 1 + flags.length + 1 + services.length := by simp; omega
+    rw [e4] at g5 l6
+    refine Reads.bind (reads_charData g5) ?_
+    have e5 : m2 + 1 + flags.length + 1 + services.length + (regexp.length :: regexp).length =
+        m2 + 1 + flags.length + 1 + services.length + 1 + regexp.length := by simp; omega
+    rw [e5] at l6
+    refine Reads.bind (reads_name_of_lay l6 hwf) ?_
+    exact Reads.pure _ _ _
+  case sig covered alg labels ottl exp inc tag signer sg =>
+    obtain ⟨ht, hc, ho, he, hi, htg⟩ := hty
+    obtain ⟨mA, lA, lB⟩ := hl
+    obtain ⟨m1, l1, m2, l2, m3, l3, m4, l4, m5, l5, m6, l6, m7, l7, m8, l8, l9⟩ := lA
+    obtain ⟨rfl, _⟩ := l9
+    obtain ⟨mB, lsg, lend⟩ := lB
+    obtain ⟨rfl, _⟩ := lend
+    obtain ⟨g2, rfl⟩ := l2
+    obtain ⟨g3, rfl⟩ := l3
+    obtain ⟨gsg, hq⟩ := lsg
+    have hbody : readRDataBody opq t = (do
+        let covered ← Rd.readU16
+        let alg ← Rd.pop
+        let labels ← Rd.pop
+        let ottl ← Rd.readU32
+        let exp ← Rd.readU32
+        let inc ← Rd.readU32
+        let tag ← Rd.readU16
+        let signer ← Rd.name
+        let sg ← Rd.readVecToEnd
+        pure (.sig covered alg labels ottl exp inc tag signer sg)) := by
+      rcases ht with rfl | rfl <;> rfl
+    rw [hbody]
+    refine Reads.bind (reads_u16_of_seg l1 hc) ?_
+    refine Reads.bind (Reads.pop (segAt_cons_get g2)) ?_
+    refine Reads.bind (Reads.pop (segAt_cons_get g3)) ?_
+    simp only [List.length_cons, List.length_nil, Nat.zero_add] at l4
+    refine Reads.bind (reads_u32_of_seg l4 ho) ?_
+    refine Reads.bind (reads_u32_of_seg l5 he) ?_
+    refine Reads.bind (reads_u32_of_seg l6 hi) ?_
+    refine Reads.bind (reads_u16_of_seg l7 htg) ?_
+    refine Reads.bind (reads_name_of_lay l8 hwf.1) ?_
+    refine Reads.bind (reads_toEnd_seg gsg hq.symm) ?_
+    exact Reads.pure _ _ _
+  case tsig alg time fudge mac oid err other =>
+    obtain ⟨rfl, hf, ho, he⟩ := hty
+    obtain ⟨halg, htime, hmac, hother⟩ := hwf
+    obtain ⟨m1, l1, m2, l2, m3, l3, m4, l4, m5, l5, m6, l6, m7, l7, m8, l8, m9, l9, m10, l10, l11⟩ := hl
+    obtain ⟨rfl, _⟩ := l11
+    have b1 := (isLayout_name _).bounds l1
+    have e2 := l2.2; have e3 := l3.2; have e4 := l4.2; have e5 := l5.2
+    have e7 := l7.2; have e8 := l8.2; have e9 := l9.2
+    obtain ⟨g6, e6⟩ := l6
+    obtain ⟨g10, e10⟩ := l10
+    simp only [u16b, u32b, List.length_cons, List.length_nil] at e2 e3 e4 e5 e7 e8 e9
+    have hbody : readRDataBody opq 250 = readTsig := rfl
+    rw [hbody]
+    unfold readTsig
+    refine Reads.bind (Reads.remaining buf p) ?_
+    refine Reads.bind (Reads.index buf p) ?_
+    refine Reads.bind (reads_name_of_lay l1 halg) ?_
+    refine Reads.bind (reads_u16_of_seg l2 (by omega)) ?_
+    refine Reads.bind (reads_u32_of_seg l3 (by omega)) ?_
+    refine Reads.bind (reads_u16_of_seg l4 hf) ?_
+    refine Reads.bind (reads_u16_of_seg l5 hmac) ?_
+    refine Reads.bind (Reads.index buf m5) ?_
+    rw [if_neg (fun hn => hn (by omega))]
+    rw [e6] at l7
+    refine Reads.bind (Reads.readSlice g6) ?_
+    refine Reads.bind (reads_u16_of_seg l7 ho) ?_
+    refine Reads.bind (reads_u16_of_seg l8 he) ?_
+    refine Reads.bind (reads_u16_of_seg l9 hother) ?_
+    refine Reads.bind (Reads.index buf m9) ?_
+    rw [if_neg (fun hn => hn (by omega))]
+    have := Reads.readSlice g10
+    rw [← e10] at this
+    refine Reads.bind this ?_
+    refine Reads.pure' _ _ ?_
+    have ht : time / 4294967296 * 4294967296 + time % 4294967296 = time := by omega
+    simp only [RData.fq, ht]
+  case caa cr rs tag v =>
+    obtain ⟨rfl, ht1, ht15, hal⟩ := hty
+    obtain ⟨hseg, hq⟩ := hl
+    simp only [blobWire, List.length_append, List.length_cons, List.length_nil] at hq
+    have s1 := segAt_cons_tail hseg
+    have s2 : SegAt buf (p + 1 + 1) (tag ++ v) := segAt_cons_tail s1
+    have s3 : SegAt buf (p + 1 + 1) tag := s2.append_left
+    have s4 : SegAt buf (p + 1 + 1 + tag.length) v := s2.append_right
+    have hbody : readRDataBody opq 257 = (do
+        let flags ← Rd.pop
+        let tagLen ← Rd.pop
+        if tagLen = 0 ∨ tagLen > 15 then Rd.fail
+        else
+          let tag ← readTag tagLen []
+          let v ← Rd.readVecToEnd
+          pure (.caa (decide (flags / 128 = 1)) (flags % 128) tag v)) := rfl
+    rw [hbody]
+    refine Reads.bind (Reads.pop (segAt_cons_get hseg)) ?_
+    refine Reads.bind (Reads.pop (segAt_cons_get s1)) ?_
+    rw [if_neg (by omega)]
+    have := reads_readTag tag [] (p + 1 + 1) s3 hal
+    simp only [List.nil_append] at this
+    refine Reads.bind this ?_
+    refine Reads.bind (reads_toEnd_seg s4 (by omega)) ?_
+    have hrs := hwf.1
+    have e1 : decide ((rs + (if cr then 128 else 0)) / 128 = 1) = cr := by cases cr <;> simp <;> omega
+    have e2 : (rs + (if cr then 128 else 0)) % 128 = rs := by cases cr <;> simp <;> omega
+    rw [e1, e2]
+    exact Reads.pure _ _ _
 
 /-- RDATA that encodes to at least one octet (RDLENGTH 0 is read as `Update0`) -/
 def _root_.HickoryVerif.Wire.RData.nonEmpty : RData → Prop
   | .txt ss => ss ≠ []
   | .null d => d ≠ []
   | .unknown _ d => d ≠ []
+  | .openpgpkey d => d ≠ []
   | _ => True
 
 theorem layRData_pos {H : Nat × Nat → Prop} {b : Bytes} {p q : Nat} (d : RData) (hp : d.proved = true)
@@ -1076,15 +1568,54 @@ theorem layRData_pos {H : Nat × Nat → Prop} {b : Bytes} {p q : Nat} (d : RDat
     obtain ⟨_, rfl⟩ := hl
     have : dd.length ≠ 0 := fun h => hne (List.eq_nil_of_length_eq_zero h)
     omega
+  case openpgpkey dd =>
+    obtain ⟨_, rfl⟩ := hl
+    have : dd.length ≠ 0 := fun h => hne (List.eq_nil_of_length_eq_zero h)
+    simp only [blobWire]; omega
+  case tsig alg time fudge mac oid err other =>
+    obtain ⟨m1, l1, rest⟩ := hl
+    obtain ⟨F, h1, _⟩ := l1
+    have h2 := h1.pos_lt_end
+    have := (isLayout_seq (isLayout_seg _) (isLayout_seq (isLayout_seg _)
+      (isLayout_seq (isLayout_seg _) (isLayout_seq (isLayout_seg _) (isLayout_seq (isLayout_seg _)
+        (isLayout_seq (isLayout_seg _) (isLayout_seq (isLayout_seg _) (isLayout_seq (isLayout_seg _)
+          (isLayout_seq (isLayout_seg _) isLayout_empty))))))))).bounds rest
+    omega
+  case naptr order pref flags services regexp n =>
+    obtain ⟨m1, l1, rest⟩ := hl
+    obtain ⟨_, rfl⟩ := l1
+    have := (isLayout_seq (isLayout_seg _) (isLayout_seq (isLayout_seg _) (isLayout_seq (isLayout_seg _)
+      (isLayout_seq (isLayout_seg _) (isLayout_seq (isLayout_name _) isLayout_empty))))).bounds rest
+    simp [u16b] at *; omega
+  case sig covered alg labels ottl exp inc tag signer sg =>
+    obtain ⟨mA, lA, lB⟩ := hl
+    obtain ⟨m1, l1, rest⟩ := lA
+    obtain ⟨_, rfl⟩ := l1
+    have b1 := (isLayout_seq (isLayout_seg _) (isLayout_seq (isLayout_seg _)
+      (isLayout_seq (isLayout_seg _) (isLayout_seq (isLayout_seg _) (isLayout_seq (isLayout_seg _)
+        (isLayout_seq (isLayout_seg _) (isLayout_seq (isLayout_name _) isLayout_empty))))))).bounds rest
+    have b2 := (isLayout_seq (isLayout_seg _) isLayout_empty).bounds lB
+    simp [u16b] at *; omega
+  all_goals
+    obtain ⟨_, rfl⟩ := hl
+    simp [blobWire, u16b]
 
 /-- the record with every name made fully qualified -/
 def _root_.HickoryVerif.Wire.Record.fq (r : Record) : Record :=
   { r with name := { r.name with fqdn := true }, rdata := r.rdata.fq }
 
-/-- what the round-trip proof needs of a record (not OPT, not a meta type) -/
+/-- a covered RDATA variant never belongs to a meta type (ANY / AXFR / IXFR), which `RData::read` refuses -/
+theorem typeOK_not_meta {d : RData} {t : Nat} (hp : d.proved = true) (h : d.typeOK t) :
+    ¬ (t = 255 ∨ t = 252 ∨ t = 251) := by
+  cases d <;> first | (simp [RData.proved] at hp; done) | skip
+  all_goals simp only [RData.typeOK, UnknownType, List.mem_cons, List.not_mem_nil, or_false, not_or] at h
+  all_goals omega
+
+/-- what the round-trip proof needs of a record (not OPT; empty RDATA — `Update0` — of any type, or a
+covered variant of its own type) -/
 structure RecWF (r : Record) : Prop where
   name : r.name.WF
-  rtype : r.rtype < 65536 ∧ r.rtype ≠ T_OPT ∧ ¬ (r.rtype = 255 ∨ r.rtype = 252 ∨ r.rtype = 251)
+  rtype : r.rtype < 65536 ∧ r.rtype ≠ T_OPT
   cls : r.cls < 65536
   ttl : r.ttl < 4294967296
   data : r.rdata = .update0 r.rtype ∨
@@ -1100,7 +1631,7 @@ theorem reads_record {H : Nat × Nat → Prop} {opq : Nat → Rd Bytes} {buf : B
   refine Reads.bind (reads_name_of_lay l1 hwf.name) ?_
   refine Reads.bind (reads_u16_of_seg l2 hwf.rtype.1) ?_
   have hcls : readClass { r.name with fqdn := true } r.rtype = Rd.readU16 := by
-    unfold readClass; rw [if_neg hwf.rtype.2.1]
+    unfold readClass; rw [if_neg hwf.rtype.2]
   rw [hcls]
   refine Reads.bind (reads_u16_of_seg l3 hwf.cls) ?_
   refine Reads.bind (reads_u32_of_seg l4 hwf.ttl) ?_
@@ -1131,7 +1662,7 @@ theorem reads_record {H : Nat × Nat → Prop} {opq : Nat → Rd Bytes} {buf : B
         simp only [List.length_take]; omega
       rw [this]
       exact hL.stable hbody (agreeOn_take _ (Nat.le_refl _) hb.2)
-    have hrd := reads_readRData (opq := opq) hwf.rtype.2.2 (by simp only [List.length_take]; omega)
+    have hrd := reads_readRData (opq := opq) (typeOK_not_meta hpv hty) (by simp only [List.length_take]; omega)
       (reads_rdataBody r.rdata hpv hty hnw htr)
     refine Reads.bind (Reads.splitOff hb.2 hrd) ?_
     exact Reads.pure' _ _ (by simp [Record.fq])
@@ -1233,7 +1764,7 @@ theorem reads_records {H : Nat × Nat → Prop} {opq : Nat → Rd Bytes} {buf : 
     · have hop := hup hu
       rw [if_neg (by intro hc; exact hc.1 hop)]
       simp only [Option.isSome_none, Bool.false_eq_true, ↓reduceIte]
-      rw [if_neg (by intro hc; rcases hc.2 with h1 | h1 | h1; exact hr.rtype.2.1 h1; exact hs1 h1; exact hs2 h1)]
+      rw [if_neg (by intro hc; rcases hc.2 with h1 | h1 | h1; exact hr.rtype.2 h1; exact hs1 h1; exact hs2 h1)]
       cases isAdd with
       | false => simpa using ih'
       | true =>
@@ -1245,19 +1776,22 @@ theorem reads_records {H : Nat × Nat → Prop} {opq : Nat → Rd Bytes} {buf : 
             cases hdd : r.rdata <;> rw [hdd] at hu h1 <;> simp [RData.isUpdate, RData.proved] at hu h1
         rw [hd]
         simp only
-        rw [if_neg hr.rtype.2.1]
+        rw [if_neg hr.rtype.2]
         exact ih'
     · rw [if_neg (by intro hc; exact hu hc.2.2)]
       simp only [Option.isSome_none, Bool.false_eq_true, ↓reduceIte]
-      rw [if_neg (by intro hc; rcases hc.2 with h1 | h1 | h1; exact hr.rtype.2.1 h1; exact hs1 h1; exact hs2 h1)]
+      rw [if_neg (by intro hc; rcases hc.2 with h1 | h1 | h1; exact hr.rtype.2 h1; exact hs1 h1; exact hs2 h1)]
       cases isAdd with
       | false => simpa using ih'
       | true =>
         simp only [Bool.not_true, Bool.false_eq_true, ↓reduceIte]
-        have hpv : r.rdata.proved = true := by
+        have hpv : r.rdata.proved = true ∧ r.rdata.typeOK r.rtype := by
           rcases hr.data with h1 | h1
           · exfalso; rw [h1] at hu; simp [RData.isUpdate] at hu
-          · exact h1.1
-        cases hdd : r.rdata <;> rw [hdd] at hpv <;> simp [RData.proved] at hpv <;>
-          simp only [Record.fq, hdd, RData.fq] <;> (simp only [Record.fq, hdd, RData.fq] at ih'; exact ih')
+          · exact ⟨h1.1, h1.2.1⟩
+        obtain ⟨hpv, hty⟩ := hpv
+        cases hdd : r.rdata <;> rw [hdd] at hpv hty <;> simp [RData.proved] at hpv <;>
+          first
+          | (exfalso; exact hs2 hty.1)
+          | (simp only [Record.fq, hdd, RData.fq]; simp only [Record.fq, hdd, RData.fq] at ih'; exact ih')
 end HickoryVerif.C02
